@@ -153,11 +153,12 @@ theorem C09_finding_enter_ieee2 :
     enterIEEE2 ⟨1, false, true, false, false, true, false⟩ [] [0x00, 0x3c] = ([0x3c, 0x00], []) := by
   decide
 
-/-- `db 1 dup (0 dup (60h)), 5`: the model (as the code) drops the statement without an error, the
-specification lays `05`. -/
-theorem C09_finding_dup_empty :
+/-- `db 1 dup (0 dup (60h)), 5` (repaired finding `intel-dup-with-empty-body-drops-statement`, repair b951363): a DUP whose
+body lays nothing replicates nothing and the statement goes on - model and specification lay `05` (before the repair the
+statement was dropped without a message). -/
+theorem C09_dup_empty_body :
     decodeIntelDx ⟨1, false, false, false, false, false, false⟩ ⟨1, true, none⟩
-      (.cons (.dup 1 (.cons (.dup 0 (.cons (.int 0x60) .nil)) .nil)) (.cons (.int 5) .nil)) = some ⟨none, .empty, []⟩ ∧
+      (.cons (.dup 1 (.cons (.dup 0 (.cons (.int 0x60) .nil)) .nil)) (.cons (.int 5) .nil)) = some ⟨none, .data [5], []⟩ ∧
     specArgs ⟨1, true, none⟩ false
       (.cons (.dup 1 (.cons (.dup 0 (.cons (.int 0x60) .nil)) .nil)) (.cons (.int 5) .nil)) = some (.data [5]) := by
   decide
